@@ -288,3 +288,25 @@ SPECS["C08"] = dict(
         dict(name="dirs", pkg="sdk/go/arvados", harness=C08_H, entry="GosymH_C08_dirs", witnesses=["done"]),
     ],
 )
+
+C09_H = ["arvados/c09_save.go", "arvados/fskeep.go"]
+SPECS["C09"] = dict(
+    level="model_checking",
+    outside="names longer than 3 symbolic bytes (escape) / trees other than the fixed 4-file, 3-directory shape (save); Sync (API call); remote-signature LocalLocator path; random failure rates; failures during background flushes (see C13)",
+    assumptions=["fake Keep backend whose k-th write fails for a solver-chosen k", "file contents are symbolic bytes; names in the save harness are concrete but include space, colon, backslash-digit sequences"],
+    runs=[
+        dict(name="escape", pkg="sdk/go/arvados", harness=C09_H, entry="GosymH_C09_escape", params=dict(quick=dict(maxlen=2), thorough=dict(maxlen=3)), witnesses=["done"]),
+        dict(name="save", pkg="sdk/go/arvados", harness=C09_H, entry="GosymH_C09_save", params=dict(quick=dict(maxfail=4), thorough=dict(maxfail=8)), witnesses=["saved", "save-failed-then-succeeded"]),
+    ],
+)
+
+SPECS["C13"] = dict(
+    level="model_checking",
+    level_text="Reduced claim (concurrency is a weak target for this technique): the completion-order part of the property. Every Keep write started in the background is held at a gate; the harness lets any subset complete, in any order, successfully or not, between foreground operations; content seen by readers, final content and the saved manifest must equal the foreground operations applied in order. Arbitrary goroutine interleavings, data races and multi-worker streams are NOT explored.",
+    outside="arbitrary interleavings of several foreground goroutines, preemption inside critical sections, data races (race detector), Rename lock ordering, concurrent Flush/MarshalManifest/Sync callers, more than 2 (quick) / 3 (thorough) foreground operations on one file",
+    assumptions=["run-to-block scheduling of the real goroutines; scheduling points only at Keep writes and blocking operations", "fake Keep whose writes block until released by the harness, in solver-chosen order and with solver-chosen outcome"],
+    runs=[
+        dict(name="async", pkg="sdk/go/arvados", harness=["arvados/c13_async.go", "arvados/fskeep.go"], entry="GosymH_C13_async", replay="engine",
+             params=dict(quick=dict(ops=2), thorough=dict(ops=3)), witnesses=["done", "writes-still-pending-at-save"]),
+    ],
+)
